@@ -68,6 +68,52 @@ def _run_variant(v: dict) -> dict:
         shutil.rmtree(tmp, ignore_errors=True)
 
 
+def _run_patch(args: Tuple[Path, str, str]) -> dict:
+    """Apply a stored patch (seeded breaking change / behaviour-preserving refactor) to a scratch
+    copy and run ONE property's check on it."""
+    d, kind, prop = args
+    tmp = Path(tempfile.mkdtemp(prefix="hcv-self.", dir="/tmp"))
+    try:
+        (tmp / "src").mkdir()
+        shutil.copytree(REPO / "src" / "hypercorn", tmp / "src" / "hypercorn")
+        p = subprocess.run(["git", "apply", "-p1", str(d / "patch.diff")], cwd=tmp, capture_output=True, text=True)
+        if p.returncode != 0:
+            return {"id": d.name, "kind": kind, "status": "skipped", "why": "patch does not apply"}
+        r = subprocess.run([str(VERIF / "check"), prop, "--repo", str(tmp)], capture_output=True, text=True)
+        rules = sorted(set(re.findall(r"^  rule=(\S+)", r.stdout, flags=re.M)))
+        if kind == "seeded":
+            return {"id": d.name, "kind": kind, "status": "fired" if r.returncode == 1 else "MISSED", "rules": rules}
+        return {"id": d.name, "kind": kind, "status": "silent" if r.returncode == 0 else "FALSE-ALARM", "rules": rules or [f"exit {r.returncode}"]}
+    finally:
+        shutil.rmtree(tmp, ignore_errors=True)
+
+
+def run_corpora(prop: str, jobs: int = 16) -> dict:
+    """The property's own seeded changes must fire, every stored refactor must leave it silent."""
+    started = time.time()
+    work: List[Tuple[Path, str, str]] = []
+    sd = VERIF / "seeded"
+    if sd.is_dir():
+        work += [(d, "seeded", prop) for d in sorted(sd.iterdir()) if d.is_dir() and d.name.startswith(prop + "-") and (d / "patch.diff").exists()]
+    nd = VERIF / "neutral"
+    if nd.is_dir():
+        work += [(d, "neutral", prop) for d in sorted(nd.iterdir()) if d.is_dir() and (d / "patch.diff").exists()]
+    with ThreadPoolExecutor(max_workers=max(1, min(jobs, 16))) as ex:
+        results = list(ex.map(_run_patch, work))
+    seeded = [r for r in results if r["kind"] == "seeded" and r["status"] != "skipped"]
+    neutral = [r for r in results if r["kind"] == "neutral" and r["status"] != "skipped"]
+    return {
+        "seeded_changes_total": len(seeded),
+        "seeded_changes_caught": len([r for r in seeded if r["status"] == "fired"]),
+        "seeded_changes_missed": [r["id"] for r in seeded if r["status"] == "MISSED"],
+        "refactors_total": len(neutral),
+        "refactors_silent": len([r for r in neutral if r["status"] == "silent"]),
+        "refactor_false_alarms": {r["id"]: r["rules"] for r in neutral if r["status"] == "FALSE-ALARM"},
+        "skipped": [r["id"] for r in results if r["status"] == "skipped"],
+        "wall_s": round(time.time() - started, 1),
+    }
+
+
 def run_selftest(prop: Optional[str], jobs: int = 16, only: Optional[str] = None, attach_to_evidence: bool = False) -> int:
     started = time.time()
     variants = [dict(m, kind="mutant") for m in MUTANTS] + [dict(n, kind="neutral") for n in NEUTRALS]
@@ -102,8 +148,12 @@ def run_selftest(prop: Optional[str], jobs: int = 16, only: Optional[str] = None
     if attach_to_evidence and prop:
         path = VERIF / "evidence" / f"{prop}.json"
         try:
+            corp = run_corpora(prop, jobs)
+            print("CORPORA " + json.dumps(corp))
             ev = json.loads(path.read_text())
             ev["coverage"]["selftest"] = summary
+            ev["coverage"]["corpora"] = corp
+            summary = dict(summary, wall_s=summary["wall_s"] + corp["wall_s"])
             ev["wall_s"] = round(ev.get("wall_s", 0) + summary["wall_s"], 3)
             path.write_text(json.dumps(ev, indent=1) + "\n")
         except Exception as error:  # pragma: no cover
